@@ -912,6 +912,23 @@ class Bus(Component):
         )
         return avg_fail_rate
 
+    def restore_line_order(self):
+        """
+        Orders the lines registered on the bus the way they were built
+
+        Parameters
+        ----------
+        None
+
+        Returns
+        ----------
+        None
+
+        """
+        self.fromline_list.sort(key=self.connected_lines.index)
+        self.toline_list.sort(key=self.connected_lines.index)
+        self.nextbus = [line.tbus for line in self.fromline_list]
+
     def reset_status(self, save_flag: bool):
         """
         Resets and sets the status of the class parameters
